@@ -1408,12 +1408,20 @@ func main() {
 	total := o.Count(900, 60000)
 	for n := 0; n < total; n++ {
 		cfg := cfgs[r.Pick(len(cfgs))]
-		kind := []string{"direct", "direct", "direct", "transform", "concurrent"}[r.Pick(5)]
+		kind := []string{"direct", "direct", "direct", "transform", "concurrent", "ancestor"}[r.Pick(6)]
+		if n%300 == 7 {
+			kind = "stress"
+			cfg = cfgs[0]
+		}
 		sum.Hist("kind:" + kind)
 		sum.Hist("cache:" + cfg.Name)
 		applyCfg(cfg)
 		opts := genOpts{builtinNames: r.Chance(0.5), nonconfig: r.Chance(0.2), malformed: r.Chance(0.3)}
 		switch kind {
+		case "stress":
+			runStress(o, r, sum, cw, it, tbl, cfg)
+		case "ancestor":
+			runAncestor(o, r, sum, cw, it, tbl, cfg)
 		case "direct":
 			opts.nodes = r.Pick(3)
 			var nodes []*idr.Node
@@ -1608,7 +1616,7 @@ func finish(r *vh.Rng, sum *vh.Summary, cw *vh.CaseWriter, it *intern, tbl *rtTa
 		}
 	}
 	// through a Transform the error's Go type is invisible: give the model's view of a throw
-	if desc.Kind == "transform" {
+	if desc.Kind == "transform" || desc.Kind == "ancestor" {
 		for _, c := range calls {
 			if c.obsErr != nil {
 				if w := intended(tbl, c, c.NodeJSON); w.Throw {
@@ -1751,4 +1759,216 @@ func replay(o *vh.Opts, tbl *rtTable) {
 		}
 	}
 	v21.VerifSetDisableCaching(false)
+}
+
+// ---- stress: many goroutines, thousands of calls, the SAME argument names everywhere ---------------------
+
+type stressDesc struct {
+	Kind       string   `json:"kind"`
+	Cache      string   `json:"cache"`
+	Goroutines int      `json:"goroutines"`
+	Calls      int      `json:"calls_per_goroutine"`
+	Scripts    []string `json:"scripts"`
+	ValueSeed  int      `json:"value_seed"`
+	First      *callT   `json:"first_failing_call,omitempty"`
+}
+
+// Every goroutine calls with args a, b (and sometimes c): same names, values that identify the
+// goroutine and the iteration.  No built-in is shadowed.  A runtime that another goroutine can
+// still touch (wiping "its" a, b) shows as a ReferenceError, a foreign value, a goja panic or a
+// fatal concurrent map access.
+func runStress(o *vh.Opts, r *vh.Rng, sum *vh.Summary, cw *vh.CaseWriter, it *intern, tbl *rtTable, cfg cacheCfg) {
+	scripts := []*SE{
+		{K: "arr", Es: []*SE{{K: "var", X: "a"}, {K: "var", X: "b"}}},
+		{K: "obj", Kvs: []SKV{{"k", &SE{K: "var", X: "a"}}, {"n", &SE{K: "var", X: "b"}}, {"z9", &SE{K: "typeof", X: "c"}}}},
+		{K: "arr", Es: []*SE{{K: "varor", X: "c", A: lit(str("none"))}, {K: "var", X: "b"}, {K: "var", X: "a"}, {K: "var", X: "a"}}},
+		{K: "var", X: "b"},
+	}
+	d := stressDesc{Kind: "stress", Cache: cfg.Name, Goroutines: r.Between(8, 16), Calls: r.Between(1500, 3000), ValueSeed: r.Intn(1000)}
+	if o.Tier == "thorough" {
+		d.Calls *= 3
+	}
+	for _, s := range scripts {
+		d.Scripts = append(d.Scripts, s.js())
+	}
+	vh.Current(o, d)
+	mk := func(g, i int) *callT {
+		sc := scripts[(g+i)%len(scripts)]
+		c := &callT{Node: -1, Script: sc, JS: sc.js()}
+		c.Args = []argT{{Name: "a", Val: num(float64(d.ValueSeed + g*100000 + i))}, {Name: "b", Val: str(fmt.Sprintf("g%d-i%d", g, i))}}
+		if (g+i)%3 == 0 {
+			c.Args = append(c.Args, argT{Name: "c", Val: JV{K: "bool", B: i%2 == 0}})
+		}
+		return c
+	}
+	firstBad := make([]*callT, d.Goroutines)
+	badWhy := make([]string, d.Goroutines)
+	samples := make([][]*callT, d.Goroutines)
+	var wg sync.WaitGroup
+	for g := 0; g < d.Goroutines; g++ {
+		wg.Add(1)
+		go func(g int) {
+			defer wg.Done()
+			for i := 0; i < d.Calls; i++ {
+				c := mk(g, i)
+				runDirect(c, nil)
+				if i < 2 {
+					samples[g] = append(samples[g], c)
+				}
+				if j := judge(tbl, c); j != "" && firstBad[g] == nil {
+					firstBad[g], badWhy[g] = c, fmt.Sprintf("goroutine %d, call %d: %s", g, i, j)
+				}
+			}
+		}(g)
+	}
+	wg.Wait()
+	canon, _ := json.Marshal(d)
+	sum.Count(string(canon), true)
+	sum.Hist(fmt.Sprintf("stress-calls:%d", d.Goroutines*d.Calls/10000*10000))
+	for g := range firstBad {
+		if firstBad[g] != nil {
+			d.First = firstBad[g]
+			sum.Fail("concurrent javascript calls with the same argument names: "+badWhy[g], d, map[string]interface{}{"call": firstBad[g]})
+			break
+		}
+	}
+	var flat []*callT
+	for g := range samples {
+		flat = append(flat, samples[g]...)
+	}
+	cw.Add(coqCase(r, it, tbl, cfg, flat), d)
+}
+
+// ---- ancestor: a plain javascript call anchored on a node that PERSISTS across records ------------------
+
+// FINAL_OUTPUT.up is anchored with xpath ".." (the parent of the streamed records); its field f
+// is a plain `javascript` custom_func whose args read the CURRENT record back down.  The call
+// must be executed for every record with that record's args.
+func runAncestor(o *vh.Opts, r *vh.Rng, sum *vh.Summary, cw *vh.CaseWriter, it *intern, tbl *rtTable, cfg cacheCfg) {
+	nrec := r.Between(2, 5)
+	xml := r.Chance(0.5)
+	intID := r.Chance(0.5)
+	var ids []int
+	var texts []string
+	for i := 0; i < nrec; i++ {
+		ids = append(ids, r.Between(1, 9999))
+		texts = append(texts, r.PickStr("x", "hello", "héllo", "日本", "a b", "Q9", "0", "zz")+fmt.Sprint(r.Pick(100)))
+	}
+	var script *SE
+	for {
+		var seen []string
+		script = genScript(r, []string{"a", "b"}, seen, false, 2)
+		if r.Chance(0.5) { // make sure both args matter
+			script = &SE{K: "arr", Es: []*SE{{K: "var", X: "a"}, script, {K: "var", X: "b"}}}
+		}
+		if !transformSafe(script) {
+			continue
+		}
+		probe := &callT{Node: -1, Script: script, Args: []argT{{Name: "a", Val: str("1")}, {Name: "b", Val: str("x")}}}
+		if w := intended(tbl, probe, ""); w.Err || !hasOpq(w.Val) {
+			break
+		}
+	}
+	jsb, _ := json.Marshal(script.js())
+	idArg := `{"xpath": "%s"}`
+	if intID {
+		idArg = `{"xpath": "%s", "type": "int"}`
+	}
+	var schema, input string
+	if xml {
+		var sb strings.Builder
+		sb.WriteString("<r><g>")
+		for i := range ids {
+			fmt.Fprintf(&sb, `<line id="%d">%s</line>`, ids[i], texts[i])
+			if r.Chance(0.3) {
+				sb.WriteString("\n")
+			}
+		}
+		sb.WriteString("</g></r>")
+		input = sb.String()
+		schema = `{"parser_settings": {"version": "omni.2.1", "file_format_type": "xml"},
+ "transform_declarations": {"FINAL_OUTPUT": {"xpath": "/r/g/line", "object": {
+   "own": {"xpath": "@id"},
+   "up": {"xpath": "..", "object": {"f": {"custom_func": {"name": "javascript", "ignore_error": true, "args": [
+      {"const": ` + string(jsb) + `, "no_trim": true}, {"const": "a"}, ` + fmt.Sprintf(idArg, "line/@id") + `, {"const": "b"}, {"xpath": "line"}]},
+      "no_trim": true, "keep_empty_or_null": true}}}}}}}`
+	} else {
+		var recs []string
+		for i := range ids {
+			recs = append(recs, fmt.Sprintf(`{"id":"%d","t":%q}`, ids[i], texts[i]))
+		}
+		input = `{"g":[` + strings.Join(recs, ",") + `]}`
+		schema = `{"parser_settings": {"version": "omni.2.1", "file_format_type": "json"},
+ "transform_declarations": {"FINAL_OUTPUT": {"xpath": "/g/*", "object": {
+   "own": {"xpath": "id"},
+   "up": {"xpath": "..", "object": {"f": {"custom_func": {"name": "javascript", "ignore_error": true, "args": [
+      {"const": ` + string(jsb) + `, "no_trim": true}, {"const": "a"}, ` + fmt.Sprintf(idArg, "*/id") + `, {"const": "b"}, {"xpath": "*/t"}]},
+      "no_trim": true, "keep_empty_or_null": true}}}}}}}`
+	}
+	desc := caseDesc{Kind: "ancestor", Cache: cfg.Name, Schema: schema, Input: input}
+	vh.Current(o, desc)
+	outs, fatal := runSchema(schema, input)
+	if fatal != "" {
+		sum.Fail("transform with a javascript call anchored on the records' parent did not run to EOF", desc, fatal)
+		return
+	}
+	if len(outs) != nrec {
+		sum.Fail("transform with a javascript call anchored on the records' parent delivered a different number of records", desc, fmt.Sprintf("%d of %d", len(outs), nrec))
+		return
+	}
+	var calls []*callT
+	for i, out := range outs {
+		c := &callT{Node: -1, Script: script, JS: script.js()}
+		if intID {
+			c.Args = append(c.Args, argT{Name: "a", Val: num(float64(ids[i]))})
+		} else {
+			c.Args = append(c.Args, argT{Name: "a", Val: str(fmt.Sprint(ids[i]))})
+		}
+		c.Args = append(c.Args, argT{Name: "b", Val: str(texts[i])})
+		up, _ := out["up"].(map[string]interface{})
+		v, present := up["f"]
+		if !present || v == nil {
+			c.obsErr = fmt.Errorf("custom_func failed (ignore_error)")
+			c.Observed = "error (field is null)"
+		} else {
+			c.obsVal = v
+			vb, _ := json.Marshal(v)
+			c.Observed = string(vb)
+		}
+		calls = append(calls, c)
+	}
+	desc.Calls = calls
+	finish(r, sum, cw, it, tbl, cfg, calls, desc, judgeTransform)
+}
+
+// runSchema runs a schema over an input and returns the decoded output records.
+func runSchema(schema, input string) (outs []map[string]interface{}, fatal string) {
+	defer func() {
+		if p := recover(); p != nil {
+			fatal = fmt.Sprintf("panic: %v", p)
+		}
+	}()
+	ls, err := vh.NewLoggedSchema("c20", []byte(schema), probeFuncs)
+	if err != nil {
+		return nil, "schema rejected: " + err.Error()
+	}
+	t, _, err := ls.NewTransform("in", strings.NewReader(input))
+	if err != nil {
+		return nil, "NewTransform: " + err.Error()
+	}
+	for i := 0; i < 1000; i++ {
+		b, err := t.Read()
+		if err == io.EOF {
+			return outs, ""
+		}
+		if err != nil {
+			return outs, "Read: " + err.Error()
+		}
+		var out map[string]interface{}
+		if err := json.Unmarshal(b, &out); err != nil {
+			return outs, "output not JSON: " + err.Error()
+		}
+		outs = append(outs, out)
+	}
+	return outs, "no EOF within 1000 reads"
 }
